@@ -170,7 +170,7 @@ impl Prop for Differential {
                 }
             }
             if case.label.starts_with("hostile:") || case.label.starts_with("corpus:") {
-                f.key = format!("{}@{}", f.key, if case.label.starts_with("corpus:") { case.label.clone() } else { tag });
+                f.key = format!("{}|{}", if case.label.starts_with("corpus:") { case.label.clone() } else { tag }, f.key);
             }
         }
         o.class(format!("family:{fam}"))
